@@ -7,6 +7,7 @@ import SeqVerif.Model.C03Frac
 import SeqVerif.Model.C03Search
 import SeqVerif.Model.C03Docs
 import SeqVerif.Model.C03TokenTable
+import SeqVerif.Model.C03Loader
 import Std.Data.HashMap
 /-!
 Driver for C03.  Lists: `,` inside a posting list / chunk, `;` between chunks / tokens, `|` between fields / blocks,
@@ -26,6 +27,7 @@ Driver for C03.  Lists: `,` inside a posting list / chunk, `;` between chunks / 
   tokens.gen <old|new> <rbs> <fields: hex,hex|...>   -> ok <field:isStart:total:startTID:hex,hex|...> | panic
   tokens.table <rbs> <base> <fields>               -> ok entries=<field:startIndex:startTID:blockIndex:valCount:min:max;...> vals=<hex,...> | panic
   tokens.getseq <rbs> <base> <fields> <tids>       -> ok <x hex or ? per call, in call order>   (one index instance)
+  loader.probe <headers len:ext1:ext2,...>          -> ok idsStart=<i> ids=<mid:rid,...> lidsStart=<i> lids=<min:max:cont,...> | panic
   tokens.tablecodec <rbs> <fields: xNAME=startTID:valCount:startIndex:blockIndex:xMIN|-:xMAX;...|...>
         -> ok <hex of every table block|...> loaded=<xNAME=xMINVAL[startIndex:startTID:blockIndex:valCount:xMAX;...]|...>
   tokens.tablebytes <rbs> <base> <name pad> <fields>  -> ok <hex of every token TABLE block|...> loaded=<1 iff loadTable = kept table>
@@ -235,6 +237,15 @@ def step (line : String) : String :=
         s!"ok {fmtList (fun (v : Option Tok) => match v with | some v => fmtX v | none => "?") (getValSeq base w tids)}"
       | .error _ => "panic"
     | _, _, _, _ => "bad-op"
+  | ["loader.probe", hs] =>
+    match (splitList hs).mapM (fun h => match h.splitOn ":" with
+        | [a, b, c] => do pure ({ len := (← a.toNat?), ext1 := (← b.toNat?), ext2 := (← c.toNat?) } : Hdr)
+        | _ => none) with
+    | some reg =>
+      match loadTables reg with
+      | some t => s!"ok idsStart={t.idsStart} ids={fmtList fmtID t.minBlockIDs} lidsStart={t.lidsStart} lids={fmtList (fun (x : Nat × Nat × Bool) => s!"{x.1}:{x.2.1}:{fmtBool x.2.2}") t.lids}"
+      | none => "panic"
+    | none => "bad-op"
   | ["tokens.tablecodec", rbs, fs] =>
     let parseE := fun (e : String) => match e.splitOn ":" with
       | [a, b, c, d, mn, mx] => do
